@@ -363,7 +363,7 @@ fn materialize(g: &PairGen, psl: &Psl, pools: &Pools) -> Case {
     };
     let provider = match g.provider % 8 {
         0..=3 => ProviderKind::Default,
-        4 => ProviderKind::AlwaysErr,
+        4 => if g.provider % 16 < 8 { ProviderKind::AlwaysErr } else { ProviderKind::Failing(g.provider / 16) },
         5 => ProviderKind::TwoLabels,
         _ => {
             // small rule set derived from the host: its last label (and sometimes last two)
